@@ -43,6 +43,11 @@ CHECKS = {
             'For each catalogue program (layered, core) and each sampled annotation assignment z3 proves the rows of the final predicates are unchanged on every database with <=2 rows per table; pairs with identical SQL are counted trivial.',
             'Trusted: lv/sqlsem.py, z3.',
             'DESIGN.md §3 C08', 'sqlsmt'),
+    'C09': ('other',
+            'CrossHair-driven enumeration: for each of the eight engines one kernel takes the index of a (catalogue program, predicate) pair as its only symbolic variable, branches on it, and runs the whole real compilation for that engine followed by a structural scan of the emitted SQL (lv/scope.py) natively; claimed on "Confirmed over all paths" = every pair executed; counterexamples replayed in a fresh interpreter',
+            'For 40 (160 thorough) catalogue programs x 8 engines, compilation ends in SQL or in one of the four diagnostic types - never in another exception - and the SQL has terminated literals and comments, balanced brackets, every alias.column resolved by a FROM clause of the same or an enclosing query, WITH tables defined before use and no unexpanded %s / {0} / ${flag} placeholder. Program shape is enumerated, not symbolic; the scoping verdict comes from a lexical scanner, not from the solver.',
+            'Trusted: lv/scope.py (calibrated on the 801 predicates of integration_tests/ and examples/ in their own dialects: none flagged), CrossHair for the enumeration. The scanner does not know column lists (a missing column of an existing alias is not detected). Fixed defect: Databricks.Subscript arity.',
+            'DESIGN.md §3 C09', 'variants'),
     'C10': ('other',
             'z3 encoding of QL.StrLiteral regenerated from the source AST on every run (per-character transducer + dialect lexer automaton over N symbolic code points with symbolic length; unsat = every string is emitted as one literal that decodes to itself); CrossHair lemmas for ParseString (double-, triple- and single-quoted), flag override / rejection / expansion and scanner string opacity; witnesses replayed on the real StrLiteral, a concrete lexer and real SQLite',
             'For all 8 dialects and every string of <=12 (24 thorough) code points the emitted literal is one well-formed token of that dialect whose decoded value is the string; double-quoted, triple-quoted and (backslash-free) single-quoted Logica literals parse to their body over every code point class; a user flag value overrides the default, undefined flags are rejected, ${flag} is expanded; string bodies are opaque to the scanner.',
@@ -102,7 +107,6 @@ CHECKS = {
 
 NOT_APPLICABLE = {
     'C06': 'needs symbolic execution of a 2.7 kLoC C++ parser built on libstdc++ strings/containers/exceptions behind a ctypes ABI; no engine in this sandbox executes it symbolically and a ctypes call realises symbolic input (DESIGN.md §4)',
-    'C09': 'for a (program, dialect) pair the output is one concrete string; the only quantifier is over program shape, which this technique cannot make symbolic for a compiler of this size; scoping of a concrete string is a scanner question, not a solver one (DESIGN.md §4)',
 }
 
 NOT_YET = 'check not built yet in this round (planned in DESIGN.md §3); not claimed'
@@ -149,6 +153,9 @@ def main():
           {'name': 'kern', 'path': 'lv/kern/',
            'serves_properties': sorted(p for p, c in CHECKS.items() if c[5] == 'kern'),
            'kind_free_text': 'CrossHair (z3-backed symbolic execution) over real Python functions of /repo with contracts; counterexamples replayed concretely'},
+          {'name': 'variants', 'path': 'lv/variants.py lv/ordset.py lv/scope.py',
+           'serves_properties': sorted(p for p, c in CHECKS.items() if c[5] == 'variants') + ['C13', 'C19'],
+           'kind_free_text': 'whole compilations of pre-parsed catalogue programs under CrossHair with a symbolic choice (variant index, set-order mask, history); the concrete remainder of each path runs natively'},
           {'name': 'z3k', 'path': 'lv/z3k/',
            'serves_properties': sorted(p for p, c in CHECKS.items() if c[5] == 'z3k'),
            'kind_free_text': 'direct z3 encodings extracted from the source AST of /repo on every run'},
